@@ -9,6 +9,7 @@ Enumerated: skeletons of the two assets (colliding row numbers), method / schedu
 from datetime import date
 
 from . import reportlib
+from .reportlib import tr
 from .common import Hist, make_cfg, method_tree, slots_of
 
 PROPS = ("C13", "C19")
@@ -32,13 +33,15 @@ def jobs(tier):
     add("BBS", "I", method="lifo")
     add("BS", "BS", filt="from-to")
     add("BSS", "B", filt="to")
-    add("BBS", "B", filt="from", method="lifo")
+    add("BSS", "B", filt="from")  # the from-date can cut into a partly sold lot: labels keep counting hidden fractions
+    add("BSBS", "B", method="lifo")  # a lot whose fractions are not adjacent rows
     add("BS", "B", filt="from-to", years=(2020, 2021))
     add("BS", "B", country="generic")
     add("BS", "B", country="es")
     add("BBS", "B", schedule={"2020": "fifo", "2021": "hifo"}, years=(2020, 2021))
     if tier == "thorough":
-        for c1 in ["BSM", "BSBS", "BBSS", "BISS"]:
+        add("BBS", "B", filt="from", method="lifo")
+        for c1 in ["BSM", "BBSS", "BISS"]:
             add(c1, "B")
         add("BSS", "BS")
         add("BBS", "BI", method="lifo")
@@ -142,7 +145,8 @@ def run(S, spec):
             return "error"
     names = {1970: list(spec["schedule"].values())[0]} if len(spec["schedule"]) == 1 else {int(y): m for y, m in spec["schedule"].items()}
     _reset_class_state()
-    rec, err = reportlib.generate(S, "rp2_full_report", cfg.country, cds, names, cfg.from_date, cfg.to_date)
+    lang = spec.get("lang") or reportlib.LANG[spec["country"]]
+    rec, err = reportlib.generate(S, "rp2_full_report", cfg.country, cds, names, cfg.from_date, cfg.to_date, lang=lang)
     if err is not None:
         S.fail("C13", "generator-exception", "%s: %s" % (type(err).__name__, str(err)[:200]), tag=type(err).__name__)
     hists = {"B1": h1, "B2": h2}
@@ -182,20 +186,20 @@ def _eqnum(S, prop, kind, what, cell, want):
 
 def check_in_out(S, rec, asset, cd, inp, h, from_date, to_date):
     """returns {transaction row id: 0-based sheet row of '<asset> In-Out'} for the transactions shown"""
-    sheet = "%s In-Out" % asset
+    sheet = tr("{} In-Out").format(asset)
     rows = rec.rows(sheet)
     S.expect(bool(rows), "C13", "sheet-missing", "sheet %r was not written" % sheet)
-    secs, _ = _sections(rows, IN_OUT_TITLES)
-    for t in IN_OUT_TITLES:
+    secs, _ = _sections(rows, [tr(t) for t in IN_OUT_TITLES])
+    for t in [tr(t) for t in IN_OUT_TITLES]:
         S.expect(t in secs, "C13", "table-missing", "%s: table %r missing" % (sheet, t))
     n = len(h.slots)
     mine = [i for i in range(n) if h.slots[i]["asset"] == asset]
     rowmap = {}
     written = set()
     for title, table, cdset, unfiltered in (
-        ("In-Flow Detail", "IN", cd.in_transaction_set, inp.unfiltered_in_transaction_set),
-        ("Out-Flow Detail", "OUT", cd.out_transaction_set, inp.unfiltered_out_transaction_set),
-        ("Intra-Flow Detail", "INTRA", cd.intra_transaction_set, inp.unfiltered_intra_transaction_set),
+        (tr("In-Flow Detail"), "IN", cd.in_transaction_set, inp.unfiltered_in_transaction_set),
+        (tr("Out-Flow Detail"), "OUT", cd.out_transaction_set, inp.unfiltered_out_transaction_set),
+        (tr("Intra-Flow Detail"), "INTRA", cd.intra_transaction_set, inp.unfiltered_intra_transaction_set),
     ):
         expected = [i for i in mine if h.slots[i]["table"] == table and _window(h.txs[i], from_date, to_date)]
         data = secs[title]
@@ -229,14 +233,15 @@ def check_in_out(S, rec, asset, cd, inp, h, from_date, to_date):
             S.expect(c.get(2) == asset, "C13", "asset-cell", what)
             price = S.ex_int(h.p[i], h.price_k)
             if table == "IN":
-                S.expect((c.get(3), c.get(4), c.get(5)) == (tx.exchange, tx.holder, h.slots[i]["type"]), "C13", "text-cells", what)
+                S.expect((c.get(3), c.get(4), c.get(5)) == (tx.exchange, tx.holder, tx.transaction_type.get_translation().upper()), "C13", "text-cells", what)
                 _eqnum(S, "C13", "spot-price", what, c.get(6), price)
                 _eqnum(S, "C13", "crypto-in", what, c.get(7), S.ex_int(h.a[i], 11))
                 _eqnum(S, "C13", "running-sum", what, c.get(8), sums[tx.row][0])
                 _eqnum(S, "C13", "fiat-fee", what, c.get(9), S.ex(tx.fiat_fee))
                 _eqnum(S, "C13", "fiat-in-no-fee", what, c.get(10), S.ex(tx.fiat_in_no_fee))
                 _eqnum(S, "C13", "fiat-in-with-fee", what, c.get(11), S.ex(tx.fiat_in_with_fee))
-                S.expect(c.get(12) == ("YES" if h.is_earn(i) else "NO"), "C13", "taxable-flag", what)
+                S.expect(c.get(12) == (tr("YES") if h.is_earn(i) else tr("NO")), "C13", "taxable-flag", what)
+                S.expect(tx.transaction_type.name == h.slots[i]["type"], "C13", "text-cells", what)
                 if from_date is None:
                     sold = 0
                     for g in cd.gain_loss_set:
@@ -249,7 +254,7 @@ def check_in_out(S, rec, asset, cd, inp, h, from_date, to_date):
                     else:
                         _eqnum(S, "C13", "sold-percentage", what, v, pct)
             elif table == "OUT":
-                S.expect((c.get(3), c.get(4), c.get(5)) == (tx.exchange, tx.holder, h.slots[i]["type"]), "C13", "text-cells", what)
+                S.expect((c.get(3), c.get(4), c.get(5)) == (tx.exchange, tx.holder, tx.transaction_type.get_translation().upper()), "C13", "text-cells", what)
                 _eqnum(S, "C13", "spot-price", what, c.get(6), price)
                 _eqnum(S, "C13", "crypto-out", what, c.get(7), S.ex(tx.crypto_out_no_fee))
                 _eqnum(S, "C13", "crypto-fee", what, c.get(8), S.ex(tx.crypto_fee))
@@ -258,7 +263,8 @@ def check_in_out(S, rec, asset, cd, inp, h, from_date, to_date):
                 _eqnum(S, "C13", "running-sum", what, c.get(10), sums[tx.row][1])
                 _eqnum(S, "C13", "fiat-out", what, c.get(11), S.ex(tx.fiat_out_no_fee))
                 _eqnum(S, "C13", "fiat-fee", what, c.get(12), S.ex(tx.fiat_fee))
-                S.expect(c.get(13) == "YES", "C13", "taxable-flag", what)
+                S.expect(c.get(13) == tr("YES"), "C13", "taxable-flag", what)
+                S.expect(tx.transaction_type.name == h.slots[i]["type"], "C13", "text-cells", what)
             else:
                 S.expect((c.get(3), c.get(4), c.get(5), c.get(6)) == (tx.from_exchange, tx.from_holder, tx.to_exchange, tx.to_holder), "C13", "text-cells", what)
                 _eqnum(S, "C13", "spot-price", what, c.get(7), price)
@@ -267,7 +273,7 @@ def check_in_out(S, rec, asset, cd, inp, h, from_date, to_date):
                 _eqnum(S, "C13", "crypto-fee", what, c.get(10), S.ex_int(h.f[i], 11))
                 _eqnum(S, "C13", "running-sum", what, c.get(11), sums[tx.row][1])
                 _eqnum(S, "C13", "fiat-fee", what, c.get(12), S.ex(tx.fiat_fee))
-                S.expect(c.get(13) == ("YES" if h.f[i] > 0 else "NO"), "C13", "taxable-flag", what)
+                S.expect(c.get(13) == (tr("YES") if h.f[i] > 0 else tr("NO")), "C13", "taxable-flag", what)
     return rowmap
 
 
@@ -280,7 +286,7 @@ def _link_ok(S, cell, tx, asset, rowmaps, what):
         S.expect(link is None, "C19", "link-to-hidden", "%s: the transaction is hidden by the date filter but the cell links to %s" % (what, link[:2] if link else None))
     else:
         S.expect(link is not None, "C19", "link-missing", "%s: no hyperlink although the transaction is on row %d of its In-Out sheet" % (what, shown + 1))
-        S.expect(link[0] == "%s In-Out" % asset, "C19", "link-sheet", "%s: links to sheet %r" % (what, link[0]))
+        S.expect(link[0] == tr("{} In-Out").format(asset), "C19", "link-sheet", "%s: links to sheet %r" % (what, link[0]))
         S.expect(link[1] == shown + 1, "C19", "link-row", "%s: links to row %d, the transaction is on row %d" % (what, link[1], shown + 1))
     if link is None:
         if type(cell).__name__ in ("SymStr", "SymTsStr"):
@@ -308,25 +314,26 @@ def _expect_val(S, got, kind, want, what, prop="C13", vkind="detail-value"):
 
 def check_tax(S, rec, asset, cd, h, rowmaps, from_date, to_date):
     """returns {year: 0-based row of the first detail row of that year}"""
-    sheet = "%s Tax" % asset
+    sheet = tr("{} Tax").format(asset)
     rows = rec.rows(sheet)
     S.expect(bool(rows), "C13", "sheet-missing", "sheet %r was not written" % sheet)
-    secs, pos = _sections(rows, TAX_TITLES)
-    for t in TAX_TITLES:
+    titles = [tr(t) for t in TAX_TITLES]
+    secs, pos = _sections(rows, titles)
+    for t in titles:
         S.expect(t in pos, "C13", "table-missing", "%s: table %r missing" % (sheet, t))
     # ---- yearly summary of the asset
     ylist = list(cd.yearly_gain_loss_list)
-    data = secs["Gain / Loss Summary"]
+    data = secs[tr("Gain / Loss Summary")]
     S.expect(len(data) == len(ylist), "C13", "row-count", "%s / summary: %d rows, %d yearly lines" % (sheet, len(data), len(ylist)))
     for r, y in zip(data, ylist):
         c = rows[r]
         what = "%s summary row %d" % (sheet, r + 1)
-        S.expect((c.get(0), c.get(1), c.get(3), c.get(4)) == (y.year, asset, "LONG" if y.is_long_term_capital_gains else "SHORT", y.transaction_type.name), "C13", "summary-key", what)
+        S.expect((c.get(0), c.get(1), c.get(3), c.get(4)) == (y.year, asset, tr("LONG") if y.is_long_term_capital_gains else tr("SHORT"), y.transaction_type.get_translation().upper()), "C13", "summary-key", what)
         for col, v in ((2, y.fiat_gain_loss), (5, y.crypto_amount), (6, y.fiat_amount), (7, y.fiat_cost_basis)):
             _eqnum(S, "C13", "summary-value", what, c.get(col), S.ex(v))
     # ---- balances and per-holder totals
     bl = list(cd.balance_set)
-    data = secs["Account Balances"]
+    data = secs[tr("Account Balances")]
     holders = sorted({b.holder for b in bl})
     S.expect(len(data) == len(bl) + len(holders), "C13", "row-count", "%s / balances: %d rows for %d accounts and %d holders" % (sheet, len(data), len(bl), len(holders)))
     totals = {}
@@ -341,16 +348,16 @@ def check_tax(S, rec, asset, cd, h, rowmaps, from_date, to_date):
     for r in data[len(bl):]:
         c = rows[r]
         what = "%s holder total row %d" % (sheet, r + 1)
-        S.expect(c.get(0) == "Total" and c.get(1) in totals and c.get(1) not in seen, "C13", "holder-total", what)
+        S.expect(c.get(0) == tr("Total") and c.get(1) in totals and c.get(1) not in seen, "C13", "holder-total", what)
         seen.add(c.get(1))
         _eqnum(S, "C13", "holder-total", what, c.get(6), totals[c.get(1)])
     # ---- average price
-    r0 = pos["Average Price"]
+    r0 = pos[tr("Average Price")]
     _eqnum(S, "C13", "average-price", "%s average price" % sheet, rows[r0 + 3].get(0), S.ex(cd.price_per_unit))
     # ---- gain / loss detail
     gls = cd.gain_loss_set
     gl = list(gls)
-    data = secs["Gain / Loss Detail"]
+    data = secs[tr("Gain / Loss Detail")]
     S.expect(len(data) == len(gl), "C13", "row-count", "%s / detail: %d rows, %d fractions in the window" % (sheet, len(data), len(gl)))
     n = len(h.slots)
     row2slot = {h.row(i): i for i in range(n) if h.slots[i]["asset"] == asset}
@@ -374,10 +381,10 @@ def check_tax(S, rec, asset, cd, h, rowmaps, from_date, to_date):
         if from_date is None:
             _eqnum(S, "C13", "running-sum", what, c.get(2), running)
         _eqnum(S, "C13", "detail-value", what + " gain", c.get(3), S.ex(g.fiat_gain))
-        S.expect(c.get(4) == ("LONG" if g.is_long_term_capital_gains() else "SHORT"), "C13", "long-short", what)
+        S.expect(c.get(4) == (tr("LONG") if g.is_long_term_capital_gains() else tr("SHORT")), "C13", "long-short", what)
         table = {"InTransaction": "IN", "OutTransaction": "OUT", "IntraTransaction": "INTRA"}[type(ev).__name__]
         _expect_val(S, _link_ok(S, c.get(5), ev, asset, rowmaps, what + " col F"), "ts", ev.timestamp, what + " event timestamp")
-        _expect_val(S, _link_ok(S, c.get(6), ev, asset, rowmaps, what + " col G"), "str", "%s / %s" % (table, ev.transaction_type.name), what + " event type")
+        _expect_val(S, _link_ok(S, c.get(6), ev, asset, rowmaps, what + " col G"), "str", "%s / %s" % (table, ev.transaction_type.get_translation().upper()), what + " event type")
         _expect_val(S, _link_ok(S, c.get(7), ev, asset, rowmaps, what + " col H"), "num", S.ex(g.crypto_amount) / S.ex(ev.crypto_balance_change), what + " event fraction %")
         _expect_val(S, _link_ok(S, c.get(8), ev, asset, rowmaps, what + " col I"), "num", S.ex(g.taxable_event_fiat_amount_with_fee_fraction), what + " proceeds")
         _expect_val(S, _link_ok(S, c.get(9), ev, asset, rowmaps, what + " col J"), "num", S.ex(ev.spot_price), what + " event spot price")
@@ -419,7 +426,7 @@ def _check_note(S, note, k, n, amount, total, asset, what):
 
 
 def check_summary(S, rec, cds, first_rows):
-    rows = rec.rows("Summary")
+    rows = rec.rows(tr("Summary"))
     data = [r for r in sorted(rows) if r > 2]
     want = [(asset, y) for asset in cds for y in cds[asset].yearly_gain_loss_list]
     S.expect(len(data) == len(want), "C13", "row-count", "Summary: %d rows, %d yearly lines" % (len(data), len(want)))
@@ -434,10 +441,10 @@ def check_summary(S, rec, cds, first_rows):
             if target is None:
                 # no detail row of that year is shown (date filter): nothing to point at; a link, if any, must stay inside the asset's sheet
                 if link is not None:
-                    S.expect(link[0] == "%s Tax" % asset, "C19", "summary-link-sheet", what)
+                    S.expect(link[0] == tr("{} Tax").format(asset), "C19", "summary-link-sheet", what)
             else:
                 S.expect(link is not None, "C19", "summary-link-missing", what)
-                S.expect(link[0] == "%s Tax" % asset, "C19", "summary-link-sheet", "%s links to %r" % (what, link[0]))
+                S.expect(link[0] == tr("{} Tax").format(asset), "C19", "summary-link-sheet", "%s links to %r" % (what, link[0]))
                 S.expect(link[1] == target + 1, "C19", "summary-link-row", "%s links to row %d, the first detail row of that year is %d" % (what, link[1], target + 1))
             if link is not None:
                 vals.append(reportlib.inner_value(S, link[2]))
@@ -449,15 +456,15 @@ def check_summary(S, rec, cds, first_rows):
                 vals.append(("num", S.ex(cell)))
         S.expect(vals[0][0] == "num" and vals[0][1] == y.year, "C13", "summary-key", what + " year")
         S.expect(vals[1] == ("str", asset), "C13", "summary-key", what + " asset")
-        S.expect(vals[3] == ("str", "LONG" if y.is_long_term_capital_gains else "SHORT"), "C13", "summary-key", what + " long/short")
-        S.expect(vals[4] == ("str", y.transaction_type.name), "C13", "summary-key", what + " type")
+        S.expect(vals[3] == ("str", tr("LONG") if y.is_long_term_capital_gains else tr("SHORT")), "C13", "summary-key", what + " long/short")
+        S.expect(vals[4] == ("str", y.transaction_type.get_translation().upper()), "C13", "summary-key", what + " type")
         for col, v in ((2, y.fiat_gain_loss), (5, y.crypto_amount), (6, y.fiat_amount), (7, y.fiat_cost_basis)):
             S.expect(vals[col][0] == "num" and S.eq(vals[col][1], S.ex(v)), "C13", "summary-value", "%s column %d" % (what, col))
 
 
 def check_legend(S, rec, spec, from_date, to_date):
-    rows = rec.rows("Legend")
-    rs = [r for r, c in rows.items() if type(c.get(0)) is str and c.get(0) == "Accounting Method"]  # pylint: disable=unidiomatic-typecheck
+    rows = rec.rows(tr("Legend"))
+    rs = [r for r, c in rows.items() if type(c.get(0)) is str and c.get(0) == tr("Accounting Method")]  # pylint: disable=unidiomatic-typecheck
     S.expect(len(rs) == 1, "C13", "legend", "no 'Accounting Method' row in the Legend")
     r = rs[0]
     got = rows[r].get(1)
